@@ -103,7 +103,7 @@ func observe(i *structs.Intention) obs {
 }
 
 func (o obs) enc() string {
-	return fmt.Sprintf("%s;%s;%s;%s;%d;%d;%s%s", hx.EncS(o.peer), hx.EncS(o.src), hx.EncS(o.dst), o.act, o.perms, o.prec, hx.EncS(o.id), o.odd)
+	return fmt.Sprintf("%s;%s;%s;%s;%d;%d%s", hx.EncS(o.peer), hx.EncS(o.src), hx.EncS(o.dst), o.act, o.perms, o.prec, o.odd)
 }
 
 func encObs(xs []obs) string {
